@@ -9,6 +9,9 @@ control in controls/pos):
                            and the narrow value is used for more than a shift / rotate / pow count
   W2  narrow arithmetic    `(a + b) as usize` where the `+ * << -` was computed in a narrower type and then widened
   W3  narrow complement    `!(m) as usize` used as an and-mask (rule C17.R5, reported there)
+  W4  advisory quantities  size_hint() / capacity() results reaching anything but a reservation (see advisory_scan)
+  W5  shift counts         a shift whose count can reach the bit width (a width <= 64 used as a shift count; see shift_scan)
+  W6  lossy adaptors       take_while / map_while on a borrowed iterator that is used again afterwards (see lossy_adaptor_scan)
 
 A cast of a value that is provably small (a width <= 64, a bit offset <= 63, a masked value, a constant) is not reported.
 """
@@ -27,12 +30,19 @@ def anchored_files(prop):
     if not _anchor_cache:
         for l in open(os.path.join(VERIF, "properties.jsonl")):
             p = json.loads(l)
-            _anchor_cache[p["id"]] = [f for f in p["anchors"].get("files", []) if f.endswith(".rs")]
+            _anchor_cache[p["id"]] = FileSet(f for f in p["anchors"].get("files", []) if f.endswith(".rs"))
     return _anchor_cache.get(prop, [])
 
 
 def body_file(b):
     return b.raw["span"].split(":")[0]
+
+
+class FileSet(list):
+    """Anchored files; `src/bit_vector.rs` also covers its submodules `src/bit_vector/*.rs` (the support structures of the plain
+    bitvector live there and are part of what the anchor names)."""
+    def __contains__(self, f):
+        return list.__contains__(self, f) or any(isinstance(f, str) and f.startswith(x[:-3] + "/") for x in self if x.endswith(".rs"))
 
 
 def uses_of(b, l):
@@ -166,3 +176,262 @@ def check(ctx, prop):
            nontrivial=False)
     ctx.ob("%s.W2.no-narrow-arithmetic-widened" % prop, "anchored-files", ", ".join(files)[:80], not w2, "cast-dataflow",
            "arithmetic computed in a narrower integer type and widened afterwards (count must be 0): %s" % w2[:4], nontrivial=False)
+    w5, rev = shift_scan(F, files)
+    for fn, kind, where in rev:
+        ctx.exempt("%s.W5.shift-count-below-bit-width" % prop, fn + "|" + kind, where, SHIFT_REVIEWED[(fn, kind)])
+    ctx.ob("%s.W5.shift-count-below-bit-width" % prop, "anchored-files", ", ".join(files)[:80], not w5, "bounded-source/guard",
+           "shifts whose count is bounded by construction by a value that reaches the bit width of the shifted type (a width <= 64 used as a "
+           "shift count), with no dominating comparison excluding it (count must be 0): %s" % w5[:4], nontrivial=False, positive=True)
+    w6 = lossy_adaptor_scan(F, files)
+    bad6 = [h for h in w6 if h[3] is True]
+    und6 = [h for h in w6 if h[3] is None]
+    ctx.ob("%s.W6.no-take-while-on-a-borrowed-iterator" % prop, "anchored-files", ", ".join(files)[:80], False if bad6 else (None if und6 else True), "adaptor-dataflow",
+           "take_while / map_while on `&mut iterator` with the iterator used again afterwards (count must be 0): %s" % [h[:3] for h in (bad6 or und6)][:3],
+           nontrivial=False, positive=bool(bad6))
+    w4 = advisory_scan(F, files)
+    ctx.ob("%s.W4.advisory-quantities-only-reserve" % prop, "anchored-files", ", ".join(files)[:80], not w4, "taint-dataflow",
+           "size_hint() / capacity() results reaching anything but a reservation -- a length, a stored field, a return value or a branch "
+           "(count must be 0; accepted sinks: %s): %s" % (sorted(ADVISORY_SINKS_OK), w4[:4]), nontrivial=False, positive=True)
+
+
+# ------------------------------------------------------------------------------------------------ W4 advisory quantities
+#
+# `Iterator::size_hint` and `Vec::capacity` (and the crate's own `capacity()` getters over it) are advisory: the first is a bound
+# the iterator may miss, the second depends on the allocator and on the history of the vector, not on its content.  The only
+# thing the pinned tree does with either is reserve memory.  A length, a stored field, a returned value or a branch that depends
+# on one makes the structure a function of something other than the bit sequence it was built from -- right in every test
+# (tests build from exact-size iterators and fresh vectors) and wrong in general.  Zero-count rule, positive identification.
+
+ADVISORY_SOURCES = ("size_hint", "capacity")
+ADVISORY_EXEMPT_FNS = ("capacity", "size_hint", "reserve", "reserve_exact", "with_capacity", "try_reserve", "shrink_to_fit")
+ADVISORY_SINKS_OK = {
+    "with_capacity": "reserves", "reserve": "reserves", "reserve_exact": "reserves", "try_reserve": "reserves",
+    "multiset": "SparseVector::try_from_iter: the iterator is bound by ExactSizeIterator, and the builder refuses to finish unless exactly that many values arrive",
+    "new": "same (SparseBuilder::new)",
+}
+ADVISORY_PURE = ("min", "max", "bit_len", "bits_to_words", "words_to_bits", "bytes_to_words", "words_to_bytes", "from", "into", "try_from", "try_into",
+                 "unwrap", "unwrap_or", "unwrap_or_default", "expect", "next_power_of_two", "div_ceil", "pow", "add", "sub", "mul", "div", "rem",
+                 "clone", "branch", "from_residual", "ok", "map", "and_then", "unwrap_or_else")
+
+
+def _rv_locals(rv):
+    out = []
+    for key in ("o", "a", "b"):
+        if key in rv and isinstance(rv[key], dict):
+            q = operand_place(rv[key])
+            if q is not None:
+                out.append(q["l"])
+    for o in rv.get("ops", []) or []:
+        q = operand_place(o)
+        if q is not None:
+            out.append(q["l"])
+    if "p" in rv and isinstance(rv["p"], dict) and "l" in rv["p"]:
+        out.append(rv["p"]["l"])
+    return out
+
+
+def _last(name):
+    n = name
+    # strip generic arguments, then take the last path segment
+    depth, cut = 0, []
+    for ch in n:
+        if ch == "<":
+            depth += 1
+        elif ch == ">":
+            depth -= 1
+        elif depth == 0:
+            cut.append(ch)
+    return "".join(cut).split("::")[-1]
+
+
+def is_advisory_source(cname):
+    last = _last(cname)
+    if last == "size_hint":
+        return True
+    return last == "capacity" and "SparseBuilder" not in cname
+
+
+def advisory_scan(F, files=None):
+    """Uses of an advisory quantity other than reserving memory: list of (function, what, where)."""
+    out = []
+    for b in F.all_bodies():
+        if "::tests::" in b.name or b.name.startswith("internal::"):
+            continue
+        if files is not None and body_file(b) not in files:
+            continue
+        own = _last(b.name.split("::{closure")[0])
+        if own in ADVISORY_EXEMPT_FNS:
+            continue
+        srcs = [(bi, t) for bi, t in b.calls() if is_advisory_source(callee_name(t))]
+        if not srcs:
+            continue
+        tainted = {}
+        for bi, t in srcs:
+            tainted[t["dest"]["l"]] = "%s at %s" % (_last(callee_name(t)), loc(t["sp"]))
+        changed = True
+        while changed:
+            changed = False
+            for bi, si, st in b.stmts():
+                if st["s"] != "assign" or (st["lhs"]["p"] and st["lhs"]["p"][0] == "deref"):
+                    continue
+                hit = [l for l in _rv_locals(st["rv"]) if l in tainted]
+                if hit and st["lhs"]["l"] not in tainted:
+                    tainted[st["lhs"]["l"]] = tainted[hit[0]]
+                    changed = True
+            for bi, t in b.calls():
+                hit = [operand_place(a)["l"] for a in t["args"] if operand_place(a) is not None and operand_place(a)["l"] in tainted]
+                if hit and _last(callee_name(t)) in ADVISORY_PURE and t["dest"]["l"] not in tainted and not (t["dest"]["p"] and t["dest"]["p"][0] == "deref"):
+                    tainted[t["dest"]["l"]] = tainted[hit[0]]
+                    changed = True
+        # uses
+        for bi, si, st in b.stmts():
+            if st["s"] == "assign" and st["lhs"]["p"] and st["lhs"]["p"][0] == "deref":
+                hit = [l for l in _rv_locals(st["rv"]) if l in tainted]
+                if hit:
+                    out.append((b.name, "stored through a reference (%s)" % tainted[hit[0]], loc(st["sp"])))
+        for bi, t in b.calls():
+            hit = [operand_place(a)["l"] for a in t["args"] if operand_place(a) is not None and operand_place(a)["l"] in tainted]
+            if not hit:
+                continue
+            last = _last(callee_name(t))
+            if last in ADVISORY_PURE or last in ADVISORY_SINKS_OK or is_advisory_source(callee_name(t)):
+                continue
+            out.append((b.name, "passed to %s (%s)" % (callee_name(t)[-60:], tainted[hit[0]]), loc(t["sp"])))
+        for bi in sorted(b.reachable()):
+            t = b.blocks[bi]["term"]
+            if t["t"] == "switch":
+                q = operand_place(t["discr"])
+                if q is not None and q["l"] in tainted:
+                    out.append((b.name, "decides a branch (%s)" % tainted[q["l"]], loc(t["sp"])))
+        if 0 in tainted:
+            out.append((b.name, "returned (%s)" % tainted[0], b.raw["span"]))
+    return out
+
+
+# ------------------------------------------------------------------------------------------------ W5 shift counts
+#
+# A width in this crate ranges over 1..=64 and a bit offset over 0..=63.  `x << width` is therefore one value away from a shift by
+# the whole word (a panic in a debug build, a shift by zero in a release build): the pinned tree never shifts by a width, it
+# indexes the mask table (`bits::low_set`) or shifts by a difference the surrounding branch keeps below 64.  Reported: a shift
+# whose count has a known upper bound that reaches the bit width of the shifted type, with no dominating comparison excluding it.
+
+SHIFT_REVIEWED = {
+    ("sparse_vector::SparseVector::split", "Overflow(Shr)"):
+        "shift by low.width(): the low width of a sparse vector is round(log2(universe * ln 2 / ones)) <= 63 for universe < 2^64 (SparseBuilder::get_params; floating point, outside this analysis)",
+    ("sparse_vector::SparseVector::combine", "Overflow(Shl)"): "same low width <= 63",
+}
+
+
+def shift_scan(F, files=None):
+    import c08
+    from guards import facts_at, fact_at_most, strip_casts, _c
+    out, reviewed = [], []
+    if id(F) not in c08._width_cache:
+        from poscontrol import Scratch
+        c08.check_width_fields(Scratch(), F, "")         # (fills the cache max_value consults for `width()` getters)
+    for b in F.all_bodies():
+        if "::tests::" in b.name or b.name.startswith("internal::"):
+            continue
+        if files is not None and body_file(b) not in files:
+            continue
+        for bi in sorted(b.reachable()):
+            t = b.blocks[bi]["term"]
+            if t["t"] != "assert" or not t["kind"].startswith("Overflow(Sh") or t["exp"]:
+                continue
+            ops = [b.term_of_operand(o) for o in t["ops"]]
+            if len(ops) != 2:
+                continue
+            q = operand_place(t["ops"][0])
+            ty = b.local_ty(q["l"]) if q is not None and not q["p"] else None
+            width = W.get(ty, 64)
+            cnt = ops[1]
+            mv = c08.max_value(F, b, cnt, bi)
+            if mv is None or mv < width:
+                continue
+            fs = facts_at(b, bi)
+            if fact_at_most(fs, cnt, width - 1):
+                continue
+            c0 = _c(cnt)
+            excluded = set()
+            for f in fs:
+                if f[0] == "cmp" and f[1] == "Ne":
+                    x, y = _c(f[2]), _c(f[3])
+                    if x == c0 and y[0] == "const" and isinstance(y[1], int):
+                        excluded.add(y[1])
+                    if y == c0 and x[0] == "const" and isinstance(x[1], int):
+                        excluded.add(x[1])
+            if all(v in excluded for v in range(width, mv + 1)) and mv - width < 8:
+                continue
+            if (b.name, t["kind"]) in SHIFT_REVIEWED and "width" in tstr(cnt) and "low" in tstr(cnt):
+                reviewed.append((b.name, t["kind"], loc(t["sp"])))
+                continue
+            out.append((b.name, "%s by %s (at most %d, type %s)" % (t["kind"], tstr(cnt)[:60], mv, ty or "?"), loc(t["sp"])))
+    return out, reviewed
+
+
+# ------------------------------------------------------------------------------------------------ W6 take_while on a borrowed iterator
+#
+# `iter.by_ref().take_while(p)` (and `map_while`) takes the first item that fails `p` out of `iter` and drops it.  Used to split
+# one cursor into consecutive groups -- the superblocks of a select structure, the runs of a block -- it loses the first item of
+# every group but the first.  The pinned tree has no such call (it counts, or peeks).  Reported when the underlying iterator is
+# used again after the adaptor was consumed (otherwise the lost item is nobody's).
+
+LOSSY_ADAPTORS = ("take_while", "map_while")
+
+
+def lossy_adaptor_scan(F, files=None):
+    from facts import resolve_ref_local, reads_of_stmt, reads_of_term
+    out = []
+    for b in F.all_bodies():
+        if "::tests::" in b.name or b.name.startswith("internal::"):
+            continue
+        if files is not None and body_file(b) not in files:
+            continue
+        for bi, t in b.calls():
+            cn = callee_name(t)
+            if not (cn.startswith("std::iter::Iterator::") and _last(cn) in LOSSY_ADAPTORS):
+                continue
+            selfty = (t["callee"].get("args") or [""])[0]
+            if "&mut " not in selfty:
+                continue
+            # the iterator behind the borrow: follow reborrows, copies and adaptor calls (by_ref, take, skip, ..) back to `&mut local`
+            root = None
+            p = operand_place(t["args"][0])
+            cur = p["l"] if p is not None and not p["p"] else None
+            for _ in range(12):
+                if cur is None:
+                    break
+                ds = b.defs().get(cur, [])
+                if len(ds) != 1:
+                    break
+                kind, payload = ds[0][2], ds[0][3]
+                if kind == "assign" and payload["r"] in ("ref", "rawptr"):
+                    q = payload["p"]
+                    if not q["p"]:
+                        root = q["l"]
+                        break
+                    cur = q["l"] if q["p"] == ["deref"] else None
+                elif kind == "assign" and payload["r"] == "use":
+                    q = operand_place(payload["o"])
+                    cur = q["l"] if q is not None and not q["p"] else None
+                elif kind == "call" and payload["args"]:
+                    q = operand_place(payload["args"][0])
+                    cur = q["l"] if q is not None and not q["p"] else None
+                else:
+                    break
+            if root is None:
+                out.append((b.name, "%s on %s (underlying iterator not identified)" % (_last(cn), selfty[:50]), loc(t["sp"]), None))
+                continue
+            after = b.reach_from(b.succ(bi))
+            used = False
+            for abi in after:
+                blk = b.blocks[abi]
+                for st in blk["stmts"]:
+                    if st["s"] == "assign" and root in _rv_locals(st["rv"]):
+                        used = True
+                tt = blk["term"]
+                if tt["t"] == "call" and any(operand_place(a) is not None and operand_place(a)["l"] == root for a in tt["args"]):
+                    used = True
+            out.append((b.name, "%s on %s, and `%s` is used again afterwards: the first item that fails the predicate is lost" % (_last(cn), selfty[:50], b.local_name(root) or "_%d" % root),
+                        loc(t["sp"]), True) if used else (b.name, "%s on a borrowed iterator that is not used again" % _last(cn), loc(t["sp"]), False))
+    return out
